@@ -16,7 +16,8 @@ META = {
                    "path functions of emu-sv (adapter, PCHIP, driver, callbacks, Hamiltonian, state). AUTOGRAD: "
                    "backward returns one value per forward input in order, each gradient guarded by its "
                    "needs_input_grad[i] and computed with the matching dH/dθ operator, saved_tensors unpacked in "
-                   "the order saved, opposite exponent signs for parameter and state gradients.",
+                   "the order saved, opposite exponent signs for parameter and state gradients. "
+                   "GRAD-ops: α of DHDOmegaSparse is ½·e^{iφ}, of DHDPhiSparse ½·Ω·e^{i(φ+π/2)} (polynomial normal form of the exponent), and the σˣ shortcut is selected only where φ was tested zero and α is real. AUTOGRAD-inplace: forward/backward of EvolveStateVector never write into the storage of a tensor input (interprocedural mutates-parameter summaries restricted to tensor storage).",
     "not_decided": "agreement of the gradients with finite differences (numerical)",
     "trusted_base": ["CPython ast", "sa.interp", "torch autograd semantics of where/division"],
     "assumptions": ["the list of forward-path functions in sa/rules/grad.py covers the differentiable path"],
